@@ -261,6 +261,10 @@ pub fn empty_trust(dir: &Path) -> (PathBuf, PathBuf) {
 
 impl Daemon {
 	pub fn spawn(o: &DaemonOpts) -> Result<Daemon, String> {
+		Self::spawn_with_stdin(o, None)
+	}
+
+	pub fn spawn_with_stdin(o: &DaemonOpts, stdin_file: Option<&Path>) -> Result<Daemon, String> {
 		let errf = std::fs::File::create(&o.stderr_path).map_err(|e| e.to_string())?;
 		let mut cmd = Command::new(&o.bin);
 		cmd.args(&o.args)
@@ -269,9 +273,16 @@ impl Daemon {
 			.env("PATH", "/usr/local/sbin:/usr/local/bin:/usr/sbin:/usr/bin:/sbin:/bin")
 			.env("HOME", &o.cwd)
 			.env("RUST_BACKTRACE", "0")
-			.stdin(Stdio::null())
 			.stdout(Stdio::null())
 			.stderr(Stdio::from(errf));
+		match stdin_file {
+			Some(p) => {
+				cmd.stdin(Stdio::from(std::fs::File::open(p).map_err(|e| e.to_string())?));
+			}
+			None => {
+				cmd.stdin(Stdio::null());
+			}
+		}
 		if !o.system_trust {
 			let (f, d) = empty_trust(&o.cwd);
 			cmd.env("SSL_CERT_FILE", f).env("SSL_CERT_DIR", d);
